@@ -2,6 +2,7 @@
 // U12 (node entry codec) and U19 (per-table maintenance is applied to every value table of a btree column).
 #![allow(dead_code, unused_variables, unused_imports, static_mut_refs, unused_mut)]
 use super::*;
+use crate::db::{RcKey, RcValue};
 
 fn ok<T>(r: Result<T>) -> Option<T> {
 	match r {
@@ -124,5 +125,121 @@ pub(crate) fn mk_btree_table_empty() -> BTreeTable {
 		ref_counted: false,
 		compression: Compress::new(crate::compress::CompressionType::NoCompression, u32::MAX),
 	}
+}
+
+// ================================================================== U41: a btree commit applies all its operations sorted by key and persists the
+// root pointer / depth whenever they changed. BTreeChangeSet::write_plan with BTree::{open, write_sorted_changes} and the
+// header write replaced by contracts.
+pub(crate) static mut BT_OPEN_ROOT: u64 = 0;
+pub(crate) static mut BT_OPEN_DEPTH: u32 = 0;
+pub(crate) static mut BT_NEW_ROOT: u64 = 0;
+pub(crate) static mut BT_NEW_DEPTH: u32 = 0;
+pub(crate) static mut BT_WS_N: usize = 0;
+pub(crate) static mut BT_WS_LEN: usize = 0;
+pub(crate) static mut BT_WS_SORTED: bool = false;
+pub(crate) static mut BT_WS_STABLE: bool = false;
+pub(crate) static mut BT_HDR_N: usize = 0;
+pub(crate) static mut BT_HDR_OK: bool = false;
+pub(crate) static mut BT_HDR_AFTER_WS: bool = false;
+// BTree::open by contract: the tree as the stored header describes it
+pub(crate) fn stub_btree_open<L: LogQuery>(_values: TablesRef, _log: &L, record_id: u64) -> Result<BTree> {
+	unsafe {
+		let root = if BT_OPEN_ROOT == 0 { None } else { Some(Address::from_u64(BT_OPEN_ROOT)) };
+		Ok(BTree::new(root, BT_OPEN_DEPTH, record_id))
+	}
+}
+// BTree::write_sorted_changes by contract (U23 + node units): applies the changes; root / depth may move
+pub(crate) fn stub_write_sorted_changes(t: &mut BTree, changes: &[Operation<RcKey, RcValue>], _btree: TablesRef, _log: &mut LogWriter) -> Result<()> {
+	unsafe {
+		BT_WS_N += 1;
+		BT_WS_LEN = changes.len();
+		if changes.len() == 2 {
+			let (k0, k1) = (changes[0].key().value()[0], changes[1].key().value()[0]);
+			BT_WS_SORTED = k0 <= k1;
+			// operations on the same key keep their commit order (the first one was a Set, the second a Dereference)
+			BT_WS_STABLE = k0 != k1 || (matches!(changes[0], Operation::Set(..)) && matches!(changes[1], Operation::Dereference(..)));
+		}
+		t.root_index = if BT_NEW_ROOT == 0 { None } else { Some(Address::from_u64(BT_NEW_ROOT)) };
+		t.depth = BT_NEW_DEPTH;
+	}
+	Ok(())
+}
+// Column::write_existing_value_plan by contract, here: the rewrite of the header entry
+pub(crate) fn stub_write_header_entry<K, V: AsRef<[u8]>>(
+	key: &TableKey,
+	_tables: TablesRef,
+	address: Address,
+	change: &Operation<K, V>,
+	_log: &mut LogWriter,
+	_stats: Option<&crate::stats::ColumnStats>,
+	_ref_counted: bool,
+) -> Result<(Option<crate::index::PlanOutcome>, Option<Address>)> {
+	unsafe {
+		BT_HDR_N += 1;
+		BT_HDR_AFTER_WS = BT_WS_N == 1;
+		let mut ok = matches!(key, TableKey::NoHash) && address.as_u64() == HEADER_ADDRESS.as_u64();
+		match change {
+			Operation::Set(_, v) => {
+				let b = v.as_ref();
+				let root = BT_NEW_ROOT.to_le_bytes();
+				let depth = BT_NEW_DEPTH.to_le_bytes();
+				ok = ok && b.len() == 12 && b[0] == root[0] && b[1] == root[1] && b[2] == root[2] && b[3] == root[3] && b[4] == root[4] && b[5] == root[5] && b[6] == root[6] && b[7] == root[7];
+				ok = ok && b.len() == 12 && b[8] == depth[0] && b[9] == depth[1] && b[10] == depth[2] && b[11] == depth[3];
+			},
+			_ => ok = false,
+		}
+		BT_HDR_OK = ok;
+	}
+	Ok((Some(crate::index::PlanOutcome::Written), None))
+}
+#[kani::proof]
+#[kani::unwind(14)]
+#[kani::stub(BTree::open, stub_btree_open)]
+#[kani::stub(BTree::write_sorted_changes, stub_write_sorted_changes)]
+#[kani::stub(crate::column::Column::write_existing_value_plan, stub_write_header_entry)]
+#[kani::stub(std::hash::RandomState::new, crate::verif_stubs::random_state_new)]
+#[kani::stub(parking_lot::RawRwLock::lock_shared_slow, crate::verif_stubs::lock_shared_slow)]
+#[kani::stub(parking_lot::RawRwLock::unlock_shared_slow, crate::verif_stubs::unlock_shared_slow)]
+#[kani::stub(parking_lot::RawRwLock::lock_exclusive_slow, crate::verif_stubs::lock_exclusive_slow)]
+#[kani::stub(parking_lot::RawRwLock::unlock_exclusive_slow, crate::verif_stubs::unlock_exclusive_slow)]
+#[kani::stub(std::fmt::format, crate::verif_stubs::fmt_format)]
+fn u41_btree_commit_sorts_operations_and_persists_the_root() {
+	let bt = std::mem::ManuallyDrop::new(mk_btree_table_empty());
+	let (k0, k1): (u8, u8) = (kani::any(), kani::any());
+	unsafe {
+		BT_OPEN_ROOT = kani::any();
+		BT_OPEN_DEPTH = kani::any();
+		BT_NEW_ROOT = kani::any();
+		BT_NEW_DEPTH = kani::any();
+		BT_WS_N = 0;
+		BT_WS_LEN = 0;
+		BT_WS_SORTED = false;
+		BT_WS_STABLE = false;
+		BT_HDR_N = 0;
+		BT_HDR_OK = false;
+		BT_HDR_AFTER_WS = false;
+	}
+	let mut cs = std::mem::ManuallyDrop::new(commit_overlay::BTreeChangeSet::new(0));
+	cs.changes.push(Operation::Set(RcKey::from(vec![k0]), RcValue::from(vec![1u8])));
+	cs.changes.push(Operation::Dereference(RcKey::from(vec![k1])));
+	let overlays: &'static RwLock<crate::log::LogOverlays> = Box::leak(Box::new(RwLock::new(crate::log::LogOverlays::with_columns(0))));
+	let w: &'static mut LogWriter<'static> = Box::leak(Box::new(LogWriter::new(overlays, 7)));
+	let mut ops: u64 = kani::any();
+	kani::assume(ops < u64::MAX - 2);
+	let ops0 = ops;
+	let r = ok(cs.write_plan(&bt, w, &mut ops));
+	assert!(r.is_some(), "U41.write_plan.no_error");
+	assert!(unsafe { BT_WS_N } == 1 && unsafe { BT_WS_LEN } == 2, "U41.write_plan.every_operation_of_the_commit_is_applied");
+	assert!(unsafe { BT_WS_SORTED }, "U41.write_plan.operations_are_applied_in_key_order");
+	assert!(unsafe { BT_WS_STABLE }, "U41.write_plan.operations_on_one_key_keep_their_commit_order");
+	let moved = unsafe { BT_OPEN_ROOT != BT_NEW_ROOT || BT_OPEN_DEPTH != BT_NEW_DEPTH };
+	if moved {
+		// the new root / depth reach the stored header in the same plan, after the tree was changed
+		assert!(unsafe { BT_HDR_N } >= 1 && unsafe { BT_HDR_OK } && unsafe { BT_HDR_AFTER_WS }, "U41.write_plan.moved_root_or_depth_is_persisted_in_the_header");
+	} else if unsafe { BT_HDR_N } > 0 {
+		assert!(unsafe { BT_HDR_OK }, "U41.write_plan.header_never_rewritten_with_other_values");
+	}
+	assert!(ops == ops0 + 2, "U41.write_plan.operation_counter_advanced");
+	kani::cover!(moved && k0 > k1, "reached");
 }
 /*@@GENERATED:btree_mod@@*/
